@@ -11,7 +11,8 @@ EXTRA = {"V-cms-1": ["C16"], "W-cms-3": ["C16"], "Z-cms-3": ["C06"], "Z-qf-2": [
          "X-util-1": ["C11"], "X-util-2": ["C01"], "C02-d": ["C02", "C05"], "C06-d": ["C06", "C05"], "C10-d": ["C10", "C05"], "C17-c": ["C17", "C19"],
          "C01-b": ["C01", "C13"], "C06-a": ["C06", "C16"], "C08-a": ["C08", "C03"], "C14-a": ["C14"], "C15-a": ["C15", "C14"],
          "C02-b": ["C02", "C17"], "C11-b": ["C11", "C14"],
-         "C05-x": ["C05", "C11"], "C06-x": ["C06", "C10"], "C14-y": ["C14", "C19", "C11"]}
+         "C05-x": ["C05", "C11"], "C06-x": ["C06", "C10"], "C14-y": ["C14", "C19", "C11"],
+         "C01-x": ["C01", "C13"], "C01-y": ["C01", "C05"], "C16-x": ["C16", "C12"]}
 
 for src in sys.argv[1:]:
     sid = os.path.basename(src.rstrip("/"))
